@@ -670,8 +670,9 @@ def owned(name, prefixes):
 
 
 class Gen:
-    def __init__(self, rng):
+    def __init__(self, rng, alias=False):
         self.rng = rng
+        self.alias = alias         # also emit plain array copies `a <- <state>v` (numpy aliasing, off by default)
         self.prefixes = set()      # prefixes given to if_/fresh_var_name so far: such names are off limits
         self.nfresh = 0
 
@@ -762,7 +763,10 @@ class Gen:
                 ops.append(["assign", lhs, rhs, loops])
             elif r < 0.66:
                 f = rng.choice(["<func>f", "<func>g", "<func>mk", "<func>mk"])
-                if f == "<func>mk":
+                if f == "<func>mk" and self.alias and rng.random() < 0.5:
+                    ops.append(["assign", "a", "<state>v"])
+                    arrs.add("a")
+                elif f == "<func>mk":
                     a = rng.choice(["a", "a", "<state>v"])
                     ops.append(["call", [a], f, [self.sexpr(defd, arrs, 1)], {}])
                     arrs.add(a)
@@ -806,8 +810,8 @@ class Gen:
         return ops
 
 
-def random_program(rng, maxops):
-    g = Gen(rng)
+def random_program(rng, maxops, alias=False):
+    g = Gen(rng, alias)
     return {"ops": g.block(rng.randint(2, maxops), 2, set(), {"<state>v"}, True)}
 
 
@@ -914,7 +918,7 @@ def bounded(payload):
     for combo in itertools.product(sub, repeat=exh_len + 1):
         run({"ops": [copy.deepcopy(o) for o in combo], "ctx": SMALL_CTX}, "exhaustive_programs")
     for _ in range(nprog):
-        run(random_program(rng, maxops), "random_programs")
+        run(random_program(rng, maxops, bool(budget.get("aliasing", False))), "random_programs")
 
     known_hits = []
     for e in payload.get("known", []):
